@@ -5,6 +5,9 @@ import DaskModel.Model.TaskTermIO
 import DaskModel.Model.LegacyOpt
 import DaskModel.Model.Rename
 import DaskModel.Model.Pickle
+import DaskModel.Model.OrderIO
+import DaskModel.Model.RenameIO
+import DaskModel.Model.SpecOptIO
 open Dask
 
 namespace GraphDrv
@@ -227,5 +230,6 @@ def table : List (String × Handler) :=
    ("subs", TermDrv.hSubs), ("cull", TermDrv.hCull), ("fuse_ok", TermDrv.hFuseOK), ("bw_leaf", TermDrv.hBwLeaf),
    ("clone_legacy", TermDrv.hCloneLegacy), ("clone_spec", TermDrv.hCloneSpec),
    ("checkpoint_reduce", TermDrv.hCheckpointReduce)]
+  ++ Dask.Order.ioHandlers ++ Dask.TaskTerm.renameIoHandlers ++ Dask.TaskTerm.specIoHandlers
 
 def main : IO Unit := runDriver table
